@@ -18,6 +18,44 @@ Proof.
   destruct (ans_encode_sym c m s a); [apply IH|reflexivity].
 Qed.
 
+(* batch forms are the per-symbol loop *)
+Lemma ans_encode_batch_from_ok l : forall i a a',
+  ans_encode_all c l a = Some a' -> ans_encode_batch_from c i l a = (a', None).
+Proof.
+  induction l as [|[m s] r IH]; intros i a a' H; cbn in *.
+  - inversion H; reflexivity.
+  - destruct (ans_encode_sym c m s a); [apply IH; exact H|discriminate].
+Qed.
+
+Lemma ans_encode_batch_from_err l1 : forall i a a1 m s l2,
+  ans_encode_all c l1 a = Some a1 -> ans_encode_sym c m s a1 = None ->
+  ans_encode_batch_from c i (l1 ++ (m, s) :: l2) a = (a1, Some (i + length l1)%nat).
+Proof.
+  induction l1 as [|[m0 s0] r IH]; intros i a a1 m s l2 H Hn; cbn in *.
+  - inversion H; subst. rewrite Hn. f_equal. f_equal. lia.
+  - destruct (ans_encode_sym c m0 s0 a) as [a0|]; [|discriminate].
+    rewrite (IH (S i) a0 a1 m s l2 H Hn). f_equal. f_equal. lia.
+Qed.
+
+Lemma ans_try_encode_from_ok l : forall i a a',
+  ans_encode_all c l a = Some a' -> ans_try_encode_from c i (map Some l) a = (a', TryOk).
+Proof.
+  induction l as [|[m s] r IH]; intros i a a' H; cbn in *.
+  - inversion H; reflexivity.
+  - destruct (ans_encode_sym c m s a); [apply IH; exact H|discriminate].
+Qed.
+
+(* a fallible iterator that fails at item k leaves exactly the first k symbols encoded *)
+Lemma ans_try_encode_from_invalid l1 : forall i a a1 l2,
+  ans_encode_all c l1 a = Some a1 ->
+  ans_try_encode_from c i (map Some l1 ++ None :: l2) a = (a1, TryInvalidModel (i + length l1)%nat).
+Proof.
+  induction l1 as [|[m0 s0] r IH]; intros i a a1 l2 H; cbn in *.
+  - inversion H; subst. f_equal. f_equal. lia.
+  - destruct (ans_encode_sym c m0 s0 a) as [a0|]; [|discriminate].
+    rewrite (IH (S i) a0 a1 l2 H). f_equal. f_equal. lia.
+Qed.
+
 (* C04: decode any number of symbols, encode them back in reverse order *)
 Lemma ans_bitsback ms : forall a ss a',
   Forall model_ok ms -> ans_inv c a ->
